@@ -104,6 +104,35 @@ CLAUSES = {
     16: "dial completed although the server did not confirm every hash of the address",
     17: "a dial with an address learned from the running listener in its current/previous period did not complete",
 }
+LIFECYCLE = {1: "Listen on a UDP port in use: failed in the QUIC layer", 2: "Listen on a refused address: failed",
+             3: "observed listener closed", 4: "Listen succeeded (same transport)",
+             5: "further listener on the same transport (observed through it)",
+             6: "Listen on the port of its own listener: failed in the QUIC layer"}
+
+
+def _lifecycle(t):
+    """lifecycle tokens of a timeline, in order: (code, index of the observation they precede)"""
+    res, i, k = [], 4, 0
+    try:
+        while i < len(t):
+            op = t[i]
+            if op == 4:
+                i += 4
+                continue
+            if op == 5:
+                res.append((t[i + 1], k))
+                i += 3
+                continue
+            i += 2 if op == 1 else 1
+            i += 15
+            i += 1 + 2 * t[i]
+            i += 1 + 2 * t[i]
+            k += 1
+    except IndexError:
+        pass
+    return res
+
+
 SIG = {0: "ECDSA", 1: "RSA-PKCS1v15", 2: "RSA-PSS", 3: "Ed25519"}
 RES = {0: "accepted", 1: "no cert", 2: "hash mismatch", 3: "parse error", 4: "RSA", 5: "too long", 6: "not valid"}
 
@@ -135,9 +164,11 @@ def describe(t):
     try:
         if t[0] in (1, 4, 5):
             evs, i = [], 4
-            while i < len(t) and len(evs) < 10:
+            while i < len(t) and len(evs) < 14:
                 op = t[i]
-                if op == 0:
+                if op == 5:
+                    evs.append({"transport_operation": LIFECYCLE.get(t[i + 1], t[i + 1]), "ns_into_the_next_advance": t[i + 2]}); i += 3
+                elif op == 0:
                     s, i = _snap(t, i + 1); evs.append({"init": s})
                 elif op == 1:
                     s, j = _snap(t, i + 2); evs.append({"advance_ns": t[i + 1], "obs": s}); i = j
@@ -177,6 +208,9 @@ def _rollovers(t):
             op = t[i]
             if op == 4:
                 i += 4
+                continue
+            if op == 5:
+                i += 3
                 continue
             i += 2 if op == 1 else 1
             h = t[i + 14]
@@ -226,7 +260,11 @@ def what(tag, toks, d):
         return "%s timeline started at t0=%d: address learned at t=%d (sample %d) is not confirmed by the same manager's handshake list at t=%d (diag %s)" % (
             "listener (real handshakes)" if toks[0] == 5 else "certManager", toks[3], d[3], d[1], d[4], d)
     if len(d) >= 3:
-        return "%s timeline: %s at sample %d (diag %s)" % ("listener (real handshakes)" if toks[0] == 5 else "certManager", CLAUSES.get(d[2], "?"), d[1], d)
+        lc = [c for c, k in _lifecycle(toks) if k <= d[1]] if toks[0] == 5 else []
+        pre = ""
+        if lc:
+            pre = " after these operations on the transport: " + "; ".join(LIFECYCLE.get(c, str(c)) for c in lc[:8])
+        return "%s timeline: %s at sample %d%s (diag %s)" % ("listener (real handshakes)" if toks[0] == 5 else "certManager", CLAUSES.get(d[2], "?"), d[1], pre, d)
     return "diag %s" % d
 
 
@@ -269,6 +307,12 @@ if __name__ == "__main__":
              "listener timelines: a real transport.Listen on a mock clock that stays open across 0-4+ rollovers (also restarts and second nodes); at every "
              "sample a real QUIC/TLS handshake is made against it and the presented leaf (NotBefore/NotAfter/hash) together with the certhashes of "
              "listener.Multiaddr() is what the same monitor judges. "
+             "transport lifecycle histories (same kind, same model, same monitor; the operations are recorded as lifecycle tokens the decoder drops): "
+             "on ONE real transport, Listens that fail in the QUIC layer (UDP port in use, the port of its own listener) or are refused (no /webtransport, "
+             "a /certhash) before the first successful Listen and at chosen offsets into an advance (ends, 1 ns around the rollover instant, random), the "
+             "observed listener closed and a later Listen (the manager runs on with no listener open, also across rollover points), a further listener "
+             "on the same transport, new and second transports; steered so that after a failed Listen at least one rollover point is always driven over "
+             "and observed in a real handshake; 1-4+ rollovers per transport. "
              "dials: real Dial against a real listener on loopback after one exact rollover, addresses built from last/current/next/bogus/"
              "re-coded/two-periods-old hashes, servers that drop, re-code or garble their early-data hashes or present other certificates. "
              "A case is non-trivial when a rollover was observed (timelines) or the outcome is not a plain hash mismatch.",
